@@ -31,6 +31,10 @@ EXAMPLES = [
     {"params": [10], "stmts": [("a", 0, ("f", 1, 10)), ("a", 1, ("f", 2, 10)), ("a", 2, ("b", "+", 1, 0)), ("r", 2)]},
     # dead division (the witness of dce_removes_throwing_division_refuted): v0 = p10 / p11; return p10
     {"params": [10, 11], "stmts": [("a", 0, ("b", "/", 10, 11)), ("r", 10)]},
+    # the witness of propagation_deletes_used_definition_refuted (known finding declaration-inside-expression)
+    {"params": [10],        # (single definitions, but hand-made: kept out of the statistics of the generated ones)
+     "stmts": [("a", 0, ("u", "i2c", 10)), ("a", 1, ("b", "+", 10, ("c", 1))), ("a", 2, ("b", "*", 1, ("c", 2))),
+               ("a", 3, ("b", "+", 0, ("c", 1))), ("a", 4, ("b", "-", 0, 3)), ("a", 5, ("b", "+", 4, 2)), ("r", 5)]},
     # a dead chain and a call whose result is unused
     {"params": [10, 11], "stmts": [("a", 0, ("b", "+", 10, 11)), ("a", 1, ("u", "neg", 0)), ("a", 2, ("f", 0, 10)), ("a", 3, ("b", "*", 1, 1)), ("r", 11)]},
 ]
@@ -284,8 +288,25 @@ def _has(block, pred):
     return any(s[0] == "a" and pred(s[2]) for s in block["stmts"])
 
 
-def classify(block):
+def reads_undefined(params, after) -> bool:
+    """the instructions left read a register that is neither a parameter nor assigned before"""
+    import re
+    have = set(params)
+    for t in after:
+        lhs, rhs = (None, t.split(" ", 2)[2]) if t.startswith("return ") else t.split(" = ", 1)
+        if any(int(r) not in have for r in re.findall(r"\bv(\d+)", rhs)):
+            return True
+        if lhs not in (None, "_"):
+            have.add(int(lhs))
+    return False
+
+
+def classify(block, after=None):
     """known-finding key of a block the pass changes the meaning of"""
+    if after is not None and not reads_undefined(block["params"], [show for show in _before_texts(block)]) \
+            and reads_undefined(block["params"], after):
+        # a definition deleted while it is still read: the Writer prints its declaration inside the expression
+        return "declaration-inside-expression"
     calls = _has(block, lambda e: e[0] == "f")
     divs = _has(block, lambda e: e[0] == "b" and e[1] in "/%")
     # r := f(q) ... q redefined ... r read, r not redefined in between
@@ -306,6 +327,17 @@ def classify(block):
     if divs and calls:
         return "division-not-a-side-effect"
     return None
+
+
+def _before_texts(block):
+    out = []
+    for s_ in block["stmts"]:
+        if s_[0] == "r":
+            out.append("return %d v%d" % (s_[1], s_[1]))
+        else:
+            regs = [o for o in s_[2][2:] if isinstance(o, int)] if s_[2][0] != "c" else []
+            out.append("%d = x(%s)" % (s_[1], " ".join("v%d" % r for r in regs)))
+    return out
 
 
 # ------------------------------------------------------------------------------------------ the leg
@@ -359,7 +391,7 @@ def leg(ck, drv, n):
                     "the model calls the block SafeBlock (propagate_sound_partial applies) but the real pass changes what it computes",
                     None, expected=list(bad[1]), observed={"after": after, "outcome": list(bad[2])})
             continue
-        key = classify(b)
+        key = classify(b, after)
         if key is None:
             # not a failing input of C21: either an invoke is involved (outside the int/long subset of the property) or the block
             # is one split_variables + dead_code_elimination never leave; counted, shown in the notes
@@ -427,7 +459,7 @@ def leg(ck, drv, n):
                     "dce_then_propagation_multi_definition_pure_meaning_changed", 0) + 1
             elif not has_div and not _has(b, lambda e: e[0] == "f"):
                 # single definitions, within the int subset of the property and no division: a failing input
-                key = classify(b)
+                key = classify(b, after)
                 if key is not None and " | safe=true" not in rep_p[reqs_d.index(rq)]:
                     ck.fail({"kind": "dce-propagation-block", "block": {"params": b["params"], "stmts": b["stmts"]}, "registers": bad[0]},
                             "dead_code_elimination then register_propagation on one basic block change what the block computes",
